@@ -119,6 +119,10 @@ def run(ctx):
                        f"the callback receives {T.show(st)[:160] if st else None}", disc="payload")
 
     wiring_rule(ctx, repo)
+    from .smcloop import forwarding_rule
+    nf = forwarding_rule(ctx, "C12.route", ("checkpoint_callback", "checkpoint_every", "checkpoint_file_path"),
+                         "with that sampler the checkpoint file / cadence / callback requested by the caller never reaches the SMC loop, so nothing (or only an in-memory copy) is checkpointed")
+    ctx.floor("checkpoint options forwarded by sample() overrides", nf, 9)
     # default wiring of the callback and the cadence
     from .smcloop import fold_sample
     sfd = fold_sample(repo, resumed=False, final=False)
@@ -411,6 +415,8 @@ MUTANTS += [
     M("handover only for samplers without checkpoint support", _A, "if not {\"checkpoint_file_path\", \"checkpoint_every\"}.issubset(", "if {\"checkpoint_file_path\", \"checkpoint_every\"}.issubset(", "C12.wire"),
     M("file callback only without a path", _SB, "if file_path is None:\n            return self.default_checkpoint_callback", "if file_path is not None:\n            return self.default_checkpoint_callback", "C12.route"),
     M("dataset name replaced when given", _SB, "if dsetname is None:\n            iter_str", "if dsetname is not None:\n            iter_str", "C12.route"),
+    M("emcee sampler drops the checkpoint file", "src/aspire/samplers/smc/emcee.py", "checkpoint_file_path=checkpoint_file_path,\n", "", "C12.route"),
+    M("blackjax sampler drops the cadence", "src/aspire/samplers/smc/blackjax.py", "checkpoint_every=checkpoint_every,\n", "", "C12.route"),
     M("cadence guard inverted", _B, "and checkpoint_every > 0\n", "and checkpoint_every <= 0\n", "C12.cad"),
     M("requested cadence overwritten by one", _B, "if checkpoint_callback is not None and checkpoint_every is None:\n            checkpoint_every = 1", "if checkpoint_callback is not None or checkpoint_every is None:\n            checkpoint_every = 1", "C12.default"),
     M("given callback replaced by the default", _B, "if checkpoint_callback is None and checkpoint_every is not None:", "if checkpoint_every is not None:", "C12.default"),
